@@ -60,7 +60,7 @@ var VirtualColumnList = []VirtualColumnMapEntry{
 	{name: "total_services", resolveFunc: VirtualColTotalServices},
 	{name: "flags", resolveFunc: VirtualColFlags},
 	{name: "localtime", resolveFunc: VirtualColLocaltime},
-	{name: "empty", resolveFunc: func(_ *Peer, _ *DataRow, _ *Column) interface{} { return "" }}, // return empty string as placeholder for nonexisting columns
+	{name: "empty", resolveFunc: func(_ *Peer, _ *DataRow, col *Column) interface{} { return col.GetEmptyValue() }}, // return empty value as placeholder for nonexisting columns
 }
 
 // VirtualColumnMap maps is the lookup map for the VirtualColumnList.
